@@ -13,9 +13,9 @@ from ..engine import graph, rng, src
 PID = "C09"
 LEVEL = "model_checking"
 RULE = ("BFS to the tier's depth from the empty state of 8 object kinds (threshold Antenna, DipoleAntenna, AntennaSystem with x2 "
-        "front end, AntennaSystem with 1-sample-delay front end and lead-in 3dt; each noiseless and noisy) over 23 actions: "
+        "front end, AntennaSystem with a front end delaying by the lead-in time 3dt; each noiseless and noisy) over 24 actions: "
         "receive(small|large amplitude x windows A=[0,8) B=[4,12) C=[20,28) D=[2,6) L=[-3,37)), read all_waveforms / waveforms / is_hit, "
-        "full_waveform and is_hit_during on 3 windows, make_noise on 2 windows, clear(), clear(reset_noise=True); "
+        "full_waveform and is_hit_during on windows incl. one with half the sampling step, make_noise on 2 windows, clear(), clear(reset_noise=True); "
         "distinct_nontrivial = distinct canonical states with >= 1 received signal")
 ASSUMPTIONS = ["a cached waveform may contain the signals present when it was first read or all signals received so far (DESIGN C09 S)",
                "for the delay front end the two readings of 'each passed through the front end' differ on (t_end, t_end+dt]; those samples are not compared",
@@ -38,6 +38,8 @@ def _grid(lo, hi):
 def _qgrid(name):
     if name == "half":
         return (np.arange(3, 15) + 0.5) * DT
+    if name == "fine":
+        return np.arange(0, 48) * DT / 2          # half the sampling step of the received signals; starts 3 dt after window L
     return _grid(*QUERY[name])
 
 
@@ -57,8 +59,8 @@ def _pulse(win, amp):
 def _actions():
     acts = [("receive", w, a) for w in WINDOWS for a in ("small", "large")]
     acts += [("read_all",), ("read_triggered",), ("read_is_hit",)]
-    acts += [("full_waveform", q) for q in ("all", "cut", "far")]
-    acts += [("is_hit_during", q) for q in ("all", "cut", "far")]
+    acts += [("full_waveform", q) for q in ("all", "cut", "far", "fine")]
+    acts += [("is_hit_during", q) for q in ("all", "cut", "fine")]
     acts += [("make_noise", q) for q in ("cut", "half")]
     acts += [("clear",), ("clear_reset",)]
     return acts
@@ -96,7 +98,9 @@ def _build(kind, noisy):
             self.setup_antenna()
 
         def front_end(self, signal):
-            v = np.concatenate(([0.0], signal.values[:-1]))
+            # a front end with memory: delays by lead_in_time (3*DT of *time*, whatever the sampling step of the grid)
+            k = int(round(self.lead_in_time / (signal.times[1] - signal.times[0])))
+            v = np.concatenate((np.zeros(k), signal.values[:-k])) if k else np.array(signal.values)
             return Signal(signal.times, v, value_type=Signal.Type.voltage)
 
     if kind == "thr":
@@ -145,8 +149,8 @@ def _expected_noiseless(st, times, upto=None):
         return 2.0 * _interp_sum(st, times, upto), mask
     if st.kind == "sys_delay":
         for (w, a, t, v) in st.rx[:upto]:
-            mask &= ~((times > t[-1]) & (times <= t[-1] + DT * (1 + 2.0 ** -20)))
-        return _interp_sum(st, times, upto, shift=DT), mask
+            mask &= ~((times > t[-1]) & (times <= t[-1] + 3 * DT * (1 + 2.0 ** -20)))
+        return _interp_sum(st, times, upto, shift=3 * DT), mask
     return _interp_sum(st, times, upto), mask
 
 
